@@ -13,4 +13,5 @@ INVARIANT IdealUnique
 INVARIANT IsoInvariant
 INVARIANT ComponentsPartition
 INVARIANT FastEqual
+INVARIANT MetaFast
 INVARIANT Export
